@@ -1,12 +1,12 @@
 (* C12 — containment, overlap and emptiness answers about version constraints are never wrong. *)
 From Coq Require Import List Bool NArith String.
 From PC Require Import Base.Cmp Base.Result Model.Pep440 Spec.Pep440Spec Model.VConstraint
-     Proofs.VersionFacts Proofs.RangeSpec Proofs.RangeAlg Proofs.RangeOps Proofs.UnionHull Proofs.UnionExact Proofs.Contain.
+     Proofs.VersionFacts Proofs.RangeSpec Proofs.RangeAlg Proofs.RangeOps Proofs.UnionHull Proofs.UnionExact Proofs.Contain Proofs.InterExact.
 Import ListNotations.
 
 (* full statement, kept visible (unions included).  Proved: the allows_all half for every constraint shape (C12_allows_all_sound),
-   self-containment for every shape; the allows_any half for two VersionRange operands (the union walk of allows_any and
-   'any iff intersection non-empty' rest on the sortedness of a union's members, which is not proved). *)
+   self-containment for every shape; the allows_any half for every shape under the decidable hypothesis [sorted_c] (members of a
+   union sorted and apart, evaluated on every generated operand by the check).  Open: 'any iff intersection non-empty'. *)
 Definition C12_full_statement : Prop :=
   forall a b v x y, allows a v = Ok x -> allows b v = Ok y ->
     forallb (regular1 v) (cbounds a ++ cbounds b) = true ->
@@ -72,3 +72,10 @@ Example C12_union_example :
     parse_constraint_text false false ">=1.5,<1.7 || 3.5"%string = Ok b /\
     goodc a = true /\ goodc b = true /\ allows_all a b = true /\ allows_all b a = false.
 Proof. do 2 eexists. repeat split; vm_compute; reflexivity. Qed.
+
+(* Proved, every constraint shape: a no from allows_any is never wrong, for operands that are [goodc] and [sorted_c]. *)
+Theorem C12_allows_any_sound : forall a b, goodc a = true -> goodc b = true -> sorted_c a = true -> sorted_c b = true ->
+  allows_any a b = Ok false ->
+  forall v, wf v = true -> regular_c v a = true -> regular_c v b = true -> sem a v && sem b v = false.
+Proof. exact allows_any_no_is_right. Qed.
+Print Assumptions C12_allows_any_sound.
